@@ -136,3 +136,16 @@ class GlobalOp(Operation):
 
 class GetGlobalOp(Operation):
     pass
+
+
+class DeallocOp(Operation):
+    def __init__(self, memref):
+        self._init_op([memref], [], [])
+
+    @staticmethod
+    def get(memref):
+        return DeallocOp(memref)
+
+    @property
+    def memref(self):
+        return self.operands[0]
